@@ -9,18 +9,20 @@ Line protocol of the Validate model.
   validate init <restored|->
   validate put <value>
   validate wait <d>
+  validate mutate clear | add <v> | remove <v>      (the caller changes ITS collection object)
 
 <allowed> = `-` | `A` | `A|v|v…`;  <check> = `-` | `C|<default>|k=v|…`;
-<schema> = `-` | `S|<default>|k=r|…` with r = value or `!` (raise).  The scripts are lookup
+<schema> = `-` | `S|<default>|k=r|…` with r = value or `!X` (raise; X = V T K Z A C for
+ValueError TypeError KeyError ZeroDivisionError AttributeError custom; a bare `!` = `!K`).  The scripts are lookup
 tables keyed by the exact value (type included: `i1`, `b1` and `f1/1` are different keys).
 -/
 namespace Edzed.Validate
 
 inductive Blk where
   | none
-  | inp (c : Cfg) (initdef : Val) (out : Val)
-  | exp0 (c : Cfg) (inp : Option Val) (expired : Val) (dur : Nat)   -- constructed, not started
-  | exp (e : ExpCfg) (s : ExpState)
+  | inp (w : World) (initdef : Val)
+  | exp0 (c : Cfg) (inp : Option Val) (expired : Val) (dur : Nat) (caller : Option (List Val))
+  | exp (w : ExpWorld)
 
 structure DState where
   blk : Blk := .none
@@ -56,10 +58,24 @@ def parseCheck (s : String) : Option (Option (Val → Val)) :=
       pure (some (lookup t d))
     | _ => none
 
-def parseSRes (s : String) : Option (Option Val) :=
-  if s == "!" then some none else (Val.parse s).map some
+def parseSRes (s : String) : Option (Except Exc Val) :=
+  match s.toList with
+  | ['!'] => some (.error .keyError)
+  | ['!', 'V'] => some (.error .valueError)
+  | ['!', 'T'] => some (.error .typeError)
+  | ['!', 'K'] => some (.error .keyError)
+  | ['!', 'Z'] => some (.error .zeroDivisionError)
+  | ['!', 'A'] => some (.error .attributeError)
+  | ['!', 'C'] => some (.error .custom)
+  | _ => (Val.parse s).map .ok
 
-def parseSchema (s : String) : Option (Option (Val → Option Val)) :=
+def parseMut : List String → Option Mut
+  | ["clear"] => some .clear
+  | ["add", v] => (Val.parse v).map .add
+  | ["remove", v] => (Val.parse v).map .remove
+  | _ => none
+
+def parseSchema (s : String) : Option (Option (Val → Except Exc Val)) :=
   if s == "-" then some none
   else match s.splitOn "|" with
     | "S" :: d :: r => do
@@ -100,7 +116,8 @@ def handle (s : DState) : List String → DState × String
     match parseCfg a c sc, Val.parse i with
     | some cfg, some i =>
       match construct cfg i with
-      | (.ok (), cl) => ({ blk := .inp cfg i .undef }, "ok" ++ callsStr cl)
+      | (.ok (), cl) =>
+        ({ blk := .inp (World.new cfg.allowed cfg.check cfg.schema) i }, "ok" ++ callsStr cl)
       | (.error e, cl) => ({ blk := .none }, errStr e ++ callsStr cl)
     | _, _ => (s, "bad-op")
   | ["reset", "exp", a, c, sc, i, x, d] =>
@@ -108,45 +125,53 @@ def handle (s : DState) : List String → DState × String
     | some cfg, some i, some x, some d =>
       match constructExp cfg i x with
       | (.ok (inp, e), cl) =>
-        ({ blk := .exp0 cfg inp e d }, "ok in=" ++ optStr inp ++ " exp=" ++ e.render ++ callsStr cl)
+        ({ blk := .exp0 cfg inp e d cfg.allowed },
+         "ok in=" ++ optStr inp ++ " exp=" ++ e.render ++ callsStr cl)
       | (.error e, cl) => ({ blk := .none }, errStr e ++ callsStr cl)
     | _, _, _, _ => (s, "bad-op")
   | ["init", r] =>
     match s.blk with
-    | .inp cfg i _ =>
+    | .inp w i =>
       let r? : Option (Option Val) := if r == "-" then some none else (Val.parse r).map some
       match r? with
       | some r =>
-        match init cfg r i with
-        | (.ok o, cl) => ({ blk := .inp cfg i o }, "ok " ++ o.render ++ callsStr cl)
+        match init w.cfg r i with
+        | (.ok o, cl) => ({ blk := .inp { w with out := o } i }, "ok " ++ o.render ++ callsStr cl)
         | (.notInitialized, cl) => ({ blk := .none }, "err NotInitialized" ++ callsStr cl)
         | (.abort, cl) => ({ blk := .none }, "err Abort" ++ callsStr cl)
       | none => (s, "bad-op")
-    | .exp0 cfg inp e d =>
+    | .exp0 cfg inp e d caller =>
       if r != "-" then (s, "bad-op") else
       let ec : ExpCfg := ⟨cfg, d, e⟩
       match initExp ec inp with
-      | some st => ({ blk := .exp ec st }, "ok " ++ expStr st)
+      | some st => ({ blk := .exp ⟨ec, st, caller⟩ }, "ok " ++ expStr st)
       | none => ({ blk := .none }, "err NotInitialized")
     | _ => (s, "bad-op")
   | ["put", v] =>
     match Val.parse v, s.blk with
-    | some v, .inp cfg i o =>
-      let p := put cfg o v
-      let r := match p.res with
+    | some v, .inp w i =>
+      let (w', res, cl) := w.put v
+      let r := match res with
         | .ret true => "ret b1"
         | .ret false => "ret b0"
         | .abort => "err Abort"
-      ({ blk := .inp cfg i p.out }, r ++ " out=" ++ p.out.render ++ callsStr p.calls)
-    | some v, .exp ec st =>
-      let (st', b, cl) := putExp ec st v
-      ({ blk := .exp ec st' }, (if b then "ret b1 " else "ret b0 ") ++ expStr st' ++ callsStr cl)
+      ({ blk := .inp w' i }, r ++ " out=" ++ w'.out.render ++ callsStr cl)
+    | some v, .exp w =>
+      let (w', b, cl) := w.put v
+      ({ blk := .exp w' }, (if b then "ret b1 " else "ret b0 ") ++ expStr w'.s ++ callsStr cl)
     | _, _ => (s, "bad-op")
   | ["wait", d] =>
     match d.toNat?, s.blk with
-    | some d, .exp ec st =>
-      let st' := wait ec st d
-      ({ blk := .exp ec st' }, expStr st')
+    | some d, .exp w =>
+      let w' := w.wait d
+      ({ blk := .exp w' }, expStr w'.s)
+    | _, _ => (s, "bad-op")
+  | "mutate" :: m =>
+    match parseMut m, s.blk with
+    | some m, .inp w i => ({ blk := .inp (w.mutate m) i }, "ok")
+    | some m, .exp0 cfg inp e d caller =>
+      ({ blk := .exp0 cfg inp e d (caller.map (fun l => callerMutate l m)) }, "ok")
+    | some m, .exp w => ({ blk := .exp (w.mutate m) }, "ok")
     | _, _ => (s, "bad-op")
   | _ => (s, "bad-op")
 
